@@ -49,6 +49,7 @@ class PathResult:
         self.unresolved = set()
         self.ext_calls = set()
         self.recursion_cut = set()
+        self.rec_cut_args = []
         self.extra = {}
 
     def ctx(self):
@@ -84,12 +85,15 @@ class Interp(StmtMixin, OpsMixin, ObjMixin, CallMixin):
         self.unresolved_calls = set()
         self.ext_calls = set()
         self.recursion_cut = set()
+        self.rec_cut_args = []
         self.recorders = []
         self.rep_stack = []
         self.call_stack = []
         self.rec_limit = 2
         self.global_cache = {}
         self.vol_cache = {}
+        self.key_alias = []  # (element path, path of the first segment's element) in loops over a + b + c
+        self.vol_reads = []  # log of reads of volatile attributes (live read vs. snapshot)
         self.intervals = {}
         self._star_counter = {}
         self.self_obj = None
@@ -153,6 +157,7 @@ class Interp(StmtMixin, OpsMixin, ObjMixin, CallMixin):
         pr.unresolved = self.unresolved_calls
         pr.ext_calls = self.ext_calls
         pr.recursion_cut = self.recursion_cut
+        pr.rec_cut_args = self.rec_cut_args
         pr.fresh_in_condition = self.fresh_in_condition
         pr.intervals = dict(self.intervals)
         pr.carried = self.carried
